@@ -277,6 +277,18 @@ def shard_main(argv):
                 if not ctx.violations:
                     _debug_logging()
                     mod.replay(ctx, rec['case'])
+                if not ctx.violations:
+                    # ... or from the shard where pycel's own warnings are errors
+                    import warnings
+                    warnings.filterwarnings('error', module=r'pycel(\.|$)')
+                    mod.replay(ctx, rec['case'])
+            if not replay and shard % 8 == 4:
+                # one shard in eight turns the warnings that pycel's own modules issue (or cause: a deprecated name of
+                # the standard library is reported for the module that uses it) into errors, as "python -W error" does:
+                # a property that promises a value does not promise it only while warnings are not errors
+                import warnings
+                warnings.filterwarnings('error', module=r'pycel(\.|$)')
+                ctx.count('shards_with_warnings_of_pycel_as_errors')
             if not replay and shard % 8 in (3, 6):
                 # two shards in eight (one on the main thread, one on a worker thread) log at DEBUG level
                 _debug_logging()
